@@ -171,6 +171,30 @@ def errors_stream(ctx, n):
     import geometer as g
     from geometer.exceptions import NotCollinear, NotConcurrent
     rng = ctx.rng
+    # four planes of which one (at any position but the first two, which define the axis) does not pass through the common axis
+    for k in range(max(4, n // 8)):
+        U = np.array([rng.randint(-2, 2) for _ in range(3)] + [1], dtype=float)
+        dd = np.array([rng.randint(-2, 2) for _ in range(3)] + [0], dtype=float)
+        if not dd[:3].any():
+            continue
+        V = U + dd
+        others = []
+        while len(others) < 4:
+            w = np.array([rng.randint(-3, 3) for _ in range(3)] + [1], dtype=float)
+            if np.linalg.matrix_rank(np.stack([U, V, w])) == 3 and all(np.linalg.matrix_rank(np.stack([U, V, w, o])) == 4 for o in others):
+                others.append(w)
+        planes = [g.Plane(g.Point(U), g.Point(V), g.Point(w)) for w in others]
+        bad = rng.choice([2, 3])
+        shifted = g.Plane(g.Point(U + np.array([1.0, 0.0, 0.0, 0.0]) + np.array([0.0, 1.0, 1.0, 0.0]) * (k % 2)), g.Point(V + np.array([0.0, 0.0, 1.0, 0.0])), g.Point(others[bad]))
+        if bool(shifted.contains(g.Line(g.Point(U), g.Point(V)))):
+            continue
+        planes[bad] = shifted
+        desc = f"four planes, the one at position {bad} misses the axis through {U[:3].tolist()} and {V[:3].tolist()}"
+        ctx.case(desc)
+        ctx.count("errors:planes")
+        r = call_impl(lambda: g.crossratio(*planes))
+        if not (r[0] == "err" and r[1] in ("NotConcurrent", "NotCollinear")):
+            ctx.disagree("C11:NotConcurrent:planes", desc, "NotConcurrent", r[1:3], replay=[desc])
     for k in range(n):
         dim = rng.choice([2, 3])
         pts = [[rng.randint(-4, 4) for _ in range(dim)] + [1] for _ in range(4)]
